@@ -27,6 +27,36 @@ class SymMem:
         return SymInt(z3.ZeroExt(W - 8, t), 0, 255)
 
 
+class MemBytes(SymBytes):
+    """SymBytes that remember where in a SymMem they were read from (ghost provenance: items[i] == mem[addr + i])"""
+
+    def __init__(self, items, mem, addr):
+        SymBytes.__init__(self, items)
+        self.mem, self.addr = mem, addr
+
+    def __getitem__(self, k):
+        r = SymBytes.__getitem__(self, k)
+        if isinstance(k, slice) and isinstance(r, SymBytes) and (k.step in (None, 1)):
+            start = k.indices(len(self.items))[0] if not isinstance(k.start, SymInt) else None
+            if start is not None:
+                return MemBytes(r.items, self.mem, self.addr + start)
+        return r
+
+    def split(self, sep=None, maxsplit=-1):
+        if maxsplit == 1 and isinstance(sep, (bytes, bytearray)) and len(sep) == 1:
+            return SymBuf(self.mem, self.addr, len(self.items)).split(sep, 1)
+        parts = SymBytes.split(self, sep, maxsplit)
+        out, off = [], 0
+        for p_ in parts:
+            out.append(MemBytes(p_.items, self.mem, self.addr + off))
+            off += len(p_.items) + 1
+        return out
+
+
+def window(mem, addr, n):
+    return MemBytes([mem.byte(addr + i) for i in range(n)], mem, addr)
+
+
 def _dec(cond):
     """decide a dual boolean"""
     return bool(cond)
@@ -94,11 +124,48 @@ class SymBuf:
                         w = w.concretize(limit=80)
                     else:
                         return SymBuf(self.mem, self.base + s, w)
-            return SymBytes([self.mem.byte(self.base + s + i) for i in range(w)])
+            return window(self.mem, self.base + s, w)
         i = self._norm(k, None)
         if _dec(i >= self.length):
             raise IndexError("index out of range")
         return self.mem.byte(self.base + i)
+
+    def _bound(self):
+        n = self.length
+        hi = n if isinstance(n, int) else n.hi
+        if hi > 4096:
+            raise Unsupported("search in a symbolic buffer without a small length bound")
+        return hi
+
+    def first_index(self, value):
+        """index of the first byte equal to `value`, or the length if there is none.  No fork: a fresh index i with its
+        definition  0 <= i <= len,  i < len => mem[base+i] == value,  forall a in [base, base+i): mem[a] != value
+        (a conservative definitional extension: such an index always exists and is unique)."""
+        c = ctx()
+        n = SymInt.lift(self.length)
+        base = SymInt.lift(self.base)
+        k = next(c.fresh)
+        i = z3.BitVec("first%d!%d" % (value, k), W)
+        a = z3.BitVec("a!%d" % k, W)
+        v = z3.BitVecVal(value, 8)
+        c.add_fact(z3.And(i >= 0, i <= n.t))
+        c.add_fact(z3.Implies(i < n.t, z3.Select(self.mem.arr, base.t + i) == v))
+        sel = z3.Select(self.mem.arr, a)
+        c.add_fact(z3.ForAll([a], z3.Implies(z3.And(base.t <= a, a < base.t + i), sel != v), patterns=[sel]))
+        return SymInt(i, 0, n.hi)
+
+    def __contains__(self, x):
+        if not isinstance(x, int):
+            raise Unsupported("subsequence test on a symbolic buffer")
+        return _dec(self.first_index(x) < self.length)
+
+    def split(self, sep=None, maxsplit=-1):
+        if maxsplit != 1 or not isinstance(sep, (bytes, bytearray)) or len(sep) != 1:
+            raise Unsupported("split of a symbolic buffer other than split(<one byte>, 1)")
+        i = self.first_index(sep[0])
+        if not _dec(i < self.length):
+            return [self]
+        return [SymBuf(self.mem, self.base, i), SymBuf(self.mem, self.base + i + 1, self.length - i - 1)]
 
     def as_symbytes(self):
         n = self.length
@@ -117,6 +184,11 @@ class SymBuf:
 
     def __repr__(self):
         return "SymBuf(%s)" % self.mem.name
+
+    def __getattr__(self, name):
+        if name.startswith("__"):
+            raise AttributeError(name)
+        raise Unsupported("bytes.%s on a symbolic buffer" % name)
 
 
 class _Raw:
@@ -176,8 +248,10 @@ class SymStreamU:
         # short read at the end of the data
         if _dec(self.pos >= self.buf.length):
             return SymBytes([])
-        out = self.buf[self.pos:self.buf.length]
-        k = len(out) if isinstance(out, SymBytes) else out.length
+        k = self.buf.length - self.pos          # by the decisions taken: 1 <= k <= n - 1
+        if isinstance(k, SymInt) and isinstance(n, int):
+            k = SymInt(k.t, max(k.lo, 1), min(k.hi, n - 1))
+        out = window(self.buf.mem, self.buf.base + self.pos, k) if isinstance(k, int) else SymBuf(self.buf.mem, self.buf.base + self.pos, k)
         self.pos = self.pos + k
         return out
 
@@ -196,6 +270,11 @@ class SymStreamU:
 
     def close(self):
         pass
+
+    def __getattr__(self, name):
+        if name.startswith("__"):
+            raise AttributeError(name)
+        raise Unsupported("stream.%s on the symbolic stream model" % name)
 
 
 def fresh_buf(name, max_len=MAXLEN):
